@@ -484,11 +484,11 @@ func (e *Env) RNoGoroutines() {
 // RReadOnlyResolvers: package-name resolvers may be shared between goroutines and are documented
 // as read-only: ResolvePackage of every in-scope implementation of resolver.RestorerResolver never
 // writes its receiver (map update, field or field-map store).
-// resolvers that are plain lookup tables: any receiver write is a violation. The go/packages and
-// go/build based resolvers configure their embedded Config/Context on every call (idempotent field
-// writes; they are not among the read-only resolvers the property lets goroutines share): for
-// them only stores into receiver-held maps (memo tables) are reported.
-var readOnlyPkgs = map[string]bool{load.PkgGuess: true, load.PkgSimple: true, load.PkgGotypes: true}
+// Any store through the receiver is a violation, for the lookup tables (guess, simple) and for the
+// resolvers that call go/packages and go/build alike: those used to set Dir, Mode and Tests of
+// their embedded Config on every call (the same values each time, but packages.Load reads the
+// struct while another goroutine's call writes it); a call works on a copy.
+var readOnlyPkgs = map[string]bool{load.PkgGuess: true, load.PkgSimple: true, load.PkgGotypes: true, load.PkgGobuild: true, load.PkgGopkgs: true}
 
 func writesThroughIndex(stack []ast.Node) bool {
 	for i := len(stack) - 1; i >= 0; i-- {
